@@ -179,6 +179,16 @@ class Path:
     def feasible(self, extra=None):
         import time
         t0 = time.time()
+        if extra is not None and self.pc:
+            # syntactic fast path (terms are hash-consed): the negation of `extra` is a conjunct of the
+            # path condition -> infeasible; `extra` itself is one -> as feasible as the path condition
+            # (satisfiable by construction: every branch taken was checked)
+            neg = extra.arg(0) if z3.is_not(extra) else None
+            ids = {c.get_id() for c in self.pc}
+            if (neg is not None and neg.get_id() in ids) or z3.Not(extra).get_id() in ids:
+                return False
+            if extra.get_id() in ids:
+                return True
         s = z3.Solver()
         s.set("timeout", self.FEAS_TIMEOUT_MS)
         if extra is None:
@@ -280,7 +290,9 @@ class Path:
             s = z3.Solver()
             s.set("timeout", self.OBL_TIMEOUT_MS)
             nt = z3.Not(cj)
-            for p in self.relevant(nt):
+            # a literally false obligation shares no symbol with the path condition: take all of it so
+            # that the counter-model is a model of the path (needed for the native replay)
+            for p in (self.pc if z3.is_false(cj) else self.relevant(nt)):
                 s.add(p)
             s.add(nt)
             t0 = time.time()
